@@ -12674,12 +12674,12 @@ static int cgi_next_posit(char *label, int index, char *name)
             if (d->dirichlet && (index == CGNS_ENUMV(Dirichlet) ||
                 0 == strcmp (d->dirichlet->name, name))) {
                 return cgi_add_posit((void *)d->dirichlet,
-                           label, 1, d->dirichlet->id);
+                           label, CGNS_ENUMV(Dirichlet), d->dirichlet->id);
             }
             if (d->neumann && (index == CGNS_ENUMV(Neumann) ||
                 0 == strcmp (d->neumann->name, name))) {
                 return cgi_add_posit((void *)d->neumann,
-                           label, 1, d->neumann->id);
+                           label, CGNS_ENUMV(Neumann), d->neumann->id);
             }
         }
         else if (0 == strcmp (label, "ReferenceState_t")) {
